@@ -1105,3 +1105,41 @@ theorem readDataCb_never (r : Reader) (inflate : Nat → List UInt8 → Option (
   simp
 
 end Tw.Datafile
+
+namespace Tw.Datafile
+
+theorem firstFailure_no_panic : ∀ (l : List (Outcome Unit)), (∀ o ∈ l, ∀ s, o ≠ .panic s) →
+    ∀ s, firstFailure l ≠ .panic s
+  | [], _, s => by simp [firstFailure]
+  | .ok () :: rest, h, s => by
+    simp only [firstFailure]
+    exact firstFailure_no_panic rest (fun o ho => h o (List.mem_cons_of_mem _ ho)) s
+  | .err e :: _, _, s => by simp [firstFailure]
+  | .panic s' :: _, h, s => absurd rfl (h _ (List.mem_cons_self ..) s')
+
+/-- `debug_dump` on an accepted file never panics (for a zlib that honours its contract) -/
+theorem debugDump_no_panic {r : Reader} (inv : Inv r) (inflate : Nat → List UInt8 → Option (List UInt8))
+    (hz : ∀ n src out, inflate n src = some out → out.length ≤ n) (s : String) :
+    r.debugDump inflate ≠ .panic s := by
+  unfold Reader.debugDump
+  apply firstFailure_no_panic
+  intro o ho s'
+  rcases List.mem_append.1 ho with h | h
+  · simp only [List.mem_flatMap, List.mem_range] at h
+    obtain ⟨i, hi, ho⟩ := h
+    obtain ⟨t, ht, _⟩ := itemType_ok inv hi
+    rw [ht] at ho
+    simp only at ho
+    obtain ⟨a, b, hab, _, hb⟩ := itemTypeIndices_ok inv t
+    rw [hab] at ho
+    simp only [List.mem_map, List.mem_range] at ho
+    obtain ⟨j, hj, rfl⟩ := ho
+    obtain ⟨v, hv, _⟩ := item_ok inv (k := a + j) (by omega)
+    rw [hv]; simp [Outcome.void]
+  · simp only [List.mem_map, List.mem_range] at h
+    obtain ⟨i, hi, rfl⟩ := h
+    rcases readData_ok inv inflate hz hi with ⟨e, he⟩ | ⟨out, ho', _⟩
+    · rw [he]; simp [Outcome.void]
+    · rw [ho']; simp [Outcome.void]
+
+end Tw.Datafile
